@@ -376,11 +376,40 @@ func (n *Node) Produce(prev *types.Block, ts int64, cands []*types.Tx, coinbase 
 }
 
 // AddOwn connects a block this node produced itself (block state attached, no re-execution).
-func (n *Node) AddOwn(p *Produced) error { return n.CS.VerifAddBlock(p.Block, p.BState, "") }
+func (n *Node) AddOwn(p *Produced) error {
+	return n.guarded(p.Block, func() error { return n.CS.VerifAddBlock(p.Block, p.BState, "") })
+}
 
 // AddPeer delivers a block as if received from the network (validator path).
 func (n *Node) AddPeer(b *types.Block) error {
-	return n.CS.VerifAddBlock(CloneBlock(b), nil, "peer")
+	c := CloneBlock(b)
+	return n.guarded(b, func() error { return n.CS.VerifAddBlock(c, nil, "peer") })
+}
+
+// AddBlockDeadline: a block delivery that has not returned after this long never will (the chain service is wedged,
+// e.g. its signature verifier deadlocked). Nothing can be said about such a node: the delivery panics, which the
+// property checks report as a failure with the history that led to it.
+var AddBlockDeadline = 60 * time.Second
+
+func (n *Node) guarded(b *types.Block, f func() error) error {
+	done := make(chan error, 1)
+	go func() {
+		defer func() {
+			if p := recover(); p != nil {
+				done <- fmt.Errorf("VERIF-PANIC in block delivery: %v", p)
+			}
+		}()
+		done <- f()
+	}()
+	select {
+	case err := <-done:
+		if err != nil && strings.HasPrefix(err.Error(), "VERIF-PANIC") {
+			panic(err.Error())
+		}
+		return err
+	case <-time.After(AddBlockDeadline):
+		panic(fmt.Sprintf("VERIF-HANG: the delivery of block %d/%x to the chain service has not returned after %v", b.BlockNo(), b.BlockHash()[:4], AddBlockDeadline))
+	}
 }
 
 func CloneBlock(b *types.Block) *types.Block {
